@@ -24,6 +24,7 @@ def run_case(ctx):
     from amr_kitchen.taste import Taster
     src = ctx.src
     common.draw_env(ctx)
+    common.prelude(ctx)
     data_read = True
     m = world.gen_world(src, special_ok=False, max_boxes=12, scale=("manyboxes", "farcorner", "manyfields"), scale_rate=80)
     special = src.flag("special_payload", 4)
